@@ -405,6 +405,119 @@ def run_empty_writes(chk, spec):
 	del others
 
 
+def run_empty_reads(chk, spec):
+	"""read-only operations on a zero-length vector that still carries a dtype - also those that promote a private copy on the way - are never refused:
+	every empty vector holds the interpreter's one (), which is not storage anybody shares"""
+	import warnings
+	from datetime import date, datetime
+	others = [Vector([]), Vector([1, 2])[2:], Vector(dtype=int), Table({"p": [], "q": []})]      # other empty vectors, alive throughout
+	makers = {"slice": lambda: Vector([1, 2, 3])[3:], "mask": lambda: Vector([1, 2])[[False, False]], "typed": lambda: Vector(dtype=int), "typed-list": lambda: Vector([], dtype=int), "dropna": lambda: Vector([1, None])[1:].dropna(),
+		"float-slice": lambda: Vector([1.5])[0:0], "date-slice": lambda: Vector([date(2020, 1, 1)])[0:0], "str-mask": lambda: Vector(["a"])[[False]], "table-column-emptied": lambda: Table({"x": [1, 2], "y": [3, 4]})[[False, False]].cols()[0]}
+	reads = {"fillna-float": lambda x: x.fillna(2.5), "fillna-complex": lambda x: x.fillna(1j), "fillna-datetime": lambda x: x.fillna(datetime(2020, 1, 1, 5)), "fillna-same": lambda x: x.fillna(0), "fillna-none": lambda x: x.fillna(None),
+		"lshift-wider": lambda x: x << [2.5], "plus": lambda x: x + 1, "cast": lambda x: x.cast(float), "copy": lambda x: x.copy(), "sort": lambda x: x.sort_by(), "isna": lambda x: x.isna(), "to_object": lambda x: x.to_object()}
+	with warnings.catch_warnings():
+		warnings.simplefilter("ignore")
+		o = call(makers[spec["maker"]])
+		if not o.ok:
+			chk.skip("empty-maker-unavailable")
+			return
+		r = call(reads[spec["read"]], o.value)
+	chk.judged("derived", ("empty-reads", spec["maker"], spec["read"]))
+	if not r.ok and isinstance(r.exc, AliasError):
+		chk.fail("a write is refused with AliasError only while another live vector really shares that storage", f"alias/spurious-refusal/zero-length-read/{spec['read']}", f"{spec!r}: {r!r}")
+	del others
+
+
+def run_iterator_of_vectors(chk, spec):
+	"""a table built from vectors that arrive in a one-shot iterator (where that is accepted at all) holds columns of its own, like one built from a list"""
+	import warnings
+	n = spec["n"]
+	a, b = Vector(list(range(n)), name="a"), Vector([10 + i for i in range(n)], name="b")
+	forms = {"Vector(generator)": lambda: Vector(v for v in (a, b)), "Table(generator)": lambda: Table(v for v in (a, b)), "Vector(iter)": lambda: Vector(iter([a, b])), "Table(iter)": lambda: Table(iter([a, b])),
+		"Vector(map)": lambda: Vector(map(lambda v: v, [a, b])), "Table(zip-first)": lambda: Table(x for x, _ in zip([a, b], range(2)))}
+	with warnings.catch_warnings():
+		warnings.simplefilter("ignore")
+		o = call(forms[spec["form"]])
+	chk.judged("sharing", ("iterator-of-vectors", spec["form"], n, o.ok))
+	if not o.ok or not isinstance(o.value, Table) or len(o.value.cols()) != 2:
+		chk.skip("iterator-of-vectors-not-accepted")
+		return
+	t = o.value
+	if any(c is a or c is b for c in t.cols()):
+		chk.fail("table columns share storage with no other live vector", f"alias/table-adopts-callers-vectors/{spec['form']}", f"{spec!r}: a column of the table IS the caller's vector object")
+		return
+	w1 = call(a.__setitem__, 0, 777)
+	w2 = call(t.__setitem__, (n - 1, "b"), 888)
+	if (not w1.ok and isinstance(w1.exc, AliasError)) or (not w2.ok and isinstance(w2.exc, AliasError)):
+		chk.fail("a write is refused with AliasError only while another live vector really shares that storage", f"alias/spurious-refusal/iterator-of-vectors/{spec['form']}", f"{spec!r}: {w1!r} / {w2!r}")
+		return
+	if list(t.cols()[0]._underlying)[0] == 777 or list(b._underlying)[n - 1] == 888:
+		chk.fail("two live vectors never observe each other's writes", f"alias/leaked-write/iterator-of-vectors/{spec['form']}", f"{spec!r}: table {[list(c._underlying) for c in t.cols()]!r}, a {list(a._underlying)!r}, b {list(b._underlying)!r}")
+
+
+def run_failed_call_then_writes(chk, spec):
+	"""a library call that FAILS half-way (and whose exception - traceback, frames and all - the program keeps, as a log or a test harness does) leaves no
+	registration behind: the table's own columns and brand-new vectors of any size stay writable afterwards"""
+	import warnings
+	what = spec["what"]
+	kept = []
+	with warnings.catch_warnings():
+		warnings.simplefilter("ignore")
+		t = Table({"g": ["a", "b", "a"], "v": [1, 2, 3], "x y": [4, 5, 6], "x_y": [7, 8, 9]})
+		u = Table({"k": ["a", "b"], "z": [1, 2]})
+	def boom(vals):
+		raise RuntimeError("callback fails")
+	with warnings.catch_warnings():
+		warnings.simplefilter("error" if what.startswith("replace") else "ignore")
+		fails = {
+			"window-raising-callback": lambda: t.window(over="g", apply={"o": ("v", boom)}), "aggregate-raising-callback": lambda: t.aggregate(over="g", apply={"o": ("v", boom)}),
+			"window-wrong-length-column": lambda: t.window(over="g", sum_over=Vector([1, 2])), "aggregate-unsummable": lambda: t.aggregate(over=["g", "v"], sum_over="g"), "window-unsummable": lambda: t.window(over=["g", "v"], sum_over="g"),
+			"join-cardinality": lambda: t.join(u, "g", "k", expect="one_to_one"), "join-bad-key": lambda: t.inner_join(u, "g", "nope"), "sort-bad-key": lambda: t.sort_by(["g", "nope"]),
+			"replace-later-lookalike": lambda: setattr(t, "x_y__3", [1, 2, 3]), "replace-by-vector-lookalike": lambda: setattr(t, "x_y__3", Vector([1, 2, 3], name="x y")), "rename-lookalike": lambda: t.rename_column("v", "X Y"),
+		}
+		keep = spec.get("keep", True)
+		exc = None
+		try:
+			fails[what]()
+			failed = False
+		except Exception as e:
+			failed = True
+			if keep:
+				exc = e      # kept as a program keeps it: traceback, frames and their locals stay alive
+			failure = repr(e)
+			del e
+		# brand-new vectors of the sizes the failed call juggled with (its column tuple, its rows) - FIRST, before this function builds any tuple of
+		# its own, while the addresses the failed call freed are still free
+		fresh = []
+		refused = []
+		if failed:
+			for size in (4, 3, 2, 1):
+				for i in range(spec["flood"]):
+					f = Vector([i] * size)
+					fresh.append(f)
+					try:
+						f[0] = -1
+					except AliasError:
+						refused.append(("fresh", size))
+						break
+	chk.judged("sharing", ("failed-call-then-writes", what, failed, keep))
+	if not failed:
+		chk.skip("failed-call-did-not-fail")
+		return
+	with warnings.catch_warnings():
+		warnings.simplefilter("ignore")
+		for j, col in enumerate(t.cols()):
+			w = call(col.__setitem__, 0, col._underlying[1])
+			if not w.ok and isinstance(w.exc, AliasError):
+				refused.append(("column", j))
+		w = call(t.__setitem__, (1, "g"), "b")
+		if not w.ok and isinstance(w.exc, AliasError):
+			refused.append(("cell", "g"))
+	if refused:
+		chk.fail("a write is refused with AliasError only while another live vector really shares that storage", f"alias/spurious-refusal/after-failed-call/{what}/{refused[0][0]}", f"{spec!r}: after {failure} (exception {'kept' if spec.get('keep', True) else 'dropped'}): refused {refused[:4]!r}")
+	del exc
+
+
 def _header_only():
 	import io
 	from ..bind import serif
@@ -448,7 +561,7 @@ def run_promote_with_holder(chk, spec):
 
 DERIVED_OPS = ["empty-left-lshift-vector", "empty-left-lshift-tuple", "typed-empty-lshift-vector", "empty-mask-lshift-vector", "lshift-empty-vector", "copy", "slice-full", "slice-0-n", "slice-0-big", "slice-neg", "slice-step1", "mask-all", "mask-all-vector", "T", "lshift-empty", "rlshift-empty", "lshift-empty-tuple",
 	"sort", "fillna", "dropna", "pos", "cast-same", "to_object", "index-all", "table-column", "table-column-slice", "unique", "copy-of-copy", "rshift-column", "lshift-none-then-slice"]
-RUNNERS = {"empty_writes": run_empty_writes, "clone_writes": run_clone_writes, "twins": run_twins, "table_own_columns": run_table_own_columns, "promote_with_holder": run_promote_with_holder, "table_sharing": run_table_sharing, "history": run_history, "burst": run_burst, "sharing": run_sharing, "derived": run_derived}
+RUNNERS = {"empty_reads": run_empty_reads, "iterator_of_vectors": run_iterator_of_vectors, "failed_call_then_writes": run_failed_call_then_writes, "empty_writes": run_empty_writes, "clone_writes": run_clone_writes, "twins": run_twins, "table_own_columns": run_table_own_columns, "promote_with_holder": run_promote_with_holder, "table_sharing": run_table_sharing, "history": run_history, "burst": run_burst, "sharing": run_sharing, "derived": run_derived}
 
 
 def setup(chk):
@@ -473,6 +586,15 @@ def run(chk):
 	for maker in ("literal", "named", "slice", "mask", "sorted", "copy", "dropna", "table-column", "typed", "table", "table-emptied", "table-sorted", "csv-header-only"):
 		for write in ("slice", "mask", "view", "attr"):
 			chk.case("empty_writes", {"maker": maker, "write": write}, "empty-writes")
+	for maker in ("slice", "mask", "typed", "typed-list", "dropna", "float-slice", "date-slice", "str-mask", "table-column-emptied"):
+		for read in ("fillna-float", "fillna-complex", "fillna-datetime", "fillna-same", "fillna-none", "lshift-wider", "plus", "cast", "copy", "sort", "isna", "to_object"):
+			chk.case("empty_reads", {"maker": maker, "read": read}, "empty-reads")
+	for form in ("Vector(generator)", "Table(generator)", "Vector(iter)", "Table(iter)", "Vector(map)", "Table(zip-first)"):
+		for n in (1, 2, 3):
+			chk.case("iterator_of_vectors", {"form": form, "n": n}, "iterator-of-vectors")
+	for what in ("window-raising-callback", "aggregate-raising-callback", "window-wrong-length-column", "aggregate-unsummable", "window-unsummable", "join-cardinality", "join-bad-key", "sort-bad-key", "replace-later-lookalike", "replace-by-vector-lookalike", "rename-lookalike"):
+		for keep in (True, False):
+			chk.case("failed_call_then_writes", {"what": what, "flood": 150 if chk.quick() else 600, "keep": keep}, "failed-call-then-writes")
 	for how in ("copy", "deepcopy"):
 		for n in (1, 2, 4):
 			for writes in (1, 2, 3, 5):
